@@ -872,7 +872,7 @@ class Tunnel(Subconstruct):
     def _parse(self, stream, context, path):
         data = stream_read_entire(stream, path)  # reads entire stream
         data = self._decode(data, context, path)
-        return self.subcon.parse(data, **context)
+        return self.subcon._parsereport(io.BytesIO(data), context, path)
 
     def _build(self, obj, stream, context, path):
         stream2 = io.BytesIO()
